@@ -73,6 +73,20 @@ class MixEdge(Marker, DirectedEdge):
     """A directed edge whose FIRST base is a plain mixin."""
 
 
+class FalsyEdge(DirectedEdge):
+    """A directed edge whose truth value is False."""
+
+    def __bool__(self):
+        return False
+
+
+class FalsyUniverse(Universe):
+    """A universe that looks like an empty container (falsy) although it has members."""
+
+    def __len__(self):
+        return 0
+
+
 class OtherLink(TwoEndedLink):
     """A two-ended link that is neither directed nor undirected."""
 
@@ -98,6 +112,7 @@ EDGE_CLASSES = {
         DSubSub,
         USub,
         MixEdge,
+        FalsyEdge,
         OtherLink,
         OtherLink2,
         TwoEndedLink,
@@ -109,8 +124,9 @@ ALL_CLASSES = {}
 ALL_CLASSES.update(VERTEX_CLASSES)
 ALL_CLASSES.update(LINK_CLASSES)
 ALL_CLASSES["UniverseLaws"] = UniverseLaws
+ALL_CLASSES["FalsyUniverse"] = FalsyUniverse
 
-DIRECTED_NAMES = ("DirectedEdge", "DSub", "DSubSub", "MixEdge")
+DIRECTED_NAMES = ("DirectedEdge", "DSub", "DSubSub", "MixEdge", "FalsyEdge")
 UNDIRECTED_NAMES = ("UnDirectedEdge", "USub")
 OTHER_NAMES = ("OtherLink", "OtherLink2", "TwoEndedLink")
 
